@@ -2,6 +2,8 @@ import Mieru.Model.Ip
 import Mieru.Model.Egress
 import Mieru.Proofs.Ip
 import Mieru.Proofs.Egress
+import Mieru.Proofs.EgressRelay
+import Mieru.Gen.C12
 /-!
 # C12 — loopback and private destinations are refused unless the user is allowed
 
@@ -233,6 +235,525 @@ theorem allowed_unaffected (cfg : Config) (parseIP : Name → Option IP) (envUse
       obtain ⟨h1, h2, h3⟩ := hpub ip hck
       simp [h1, h2, h3]
 
+/-! ## Round 3: zoned literals, the relay over a SEQUENCE of datagrams, name resolution, regenerated ties -/
+
+/-- **Zoned IPv6 literals** (`"::1%x"`, `"::ffff:127.0.0.1%1"`, `"::%eth0"` …; repo commit "fix: classify a zoned
+    IPv6 literal sent as a domain name by its address"): a domain-typed destination `lit%zone` whose literal
+    part parses to a loopback / unspecified address denotes the local machine — so by `local_refused_full`
+    and `udp_datagram_refused_full` it is refused — and one whose literal part is private denotes a private
+    destination. (`net.ParseIP` itself rejects the zoned text; the resolver drops the zone and returns the
+    address, which is what made this a bypass before the repair.) -/
+theorem zoned_literal_denotes_local (parseIP : Name → Option IP) (lit zone : Name) (port : Nat) (ip : IP)
+    (hl : (0x25 : UInt8) ∉ lit) (hp : parseIP lit = some ip) :
+    ((isLoopback ip = true ∨ isUnspecified ip = true) → DenotesLocal parseIP ⟨[], lit ++ 0x25 :: zone, port⟩) ∧
+    (isPrivate ip = true → isWellKnownV4 (lit ++ 0x25 :: zone) = false → isWellKnownV6 (lit ++ 0x25 :: zone) = false →
+      DenotesPrivate parseIP ⟨[], lit ++ 0x25 :: zone, port⟩) := by
+  have hcut : parseIPLiteral parseIP (lit ++ 0x25 :: zone) = some ip := by
+    unfold parseIPLiteral; rw [cutZone_zone lit zone hl, hp]
+  have hnn : lit ++ 0x25 :: zone ≠ [] := by simp
+  exact ⟨fun h => Or.inr (Or.inr (Or.inr ⟨rfl, hnn, ip, hcut, h⟩)),
+         fun h h4 h6 => Or.inr ⟨rfl, hnn, h4, h6, ip, hcut, h⟩⟩
+
+/-- **Every datagram of an association, whatever came before it.**  The relay loop
+    (`runUDPAssociateLoop` / `runUDPAssociateDatagramLoop`) over ANY sequence of client datagrams, from
+    ANY state: the i-th datagram is either not read at all (the packet-over-stream loop has returned) or
+    decided exactly as if it were alone (`relayDatagram`) — no earlier datagram, allowed or refused, to
+    the same or another destination, changes the decision. -/
+theorem relay_each_datagram_decided_alone (mode : RelayMode) (cfg : Config) (parseIP : Name → Option IP)
+    (envUser : Option Name) (st : RelaySt) (pkts : List (List UInt8)) (i : Nat) (ev : RelayEv)
+    (h : (relayRun mode cfg parseIP envUser st pkts).1[i]? = some ev) :
+    (relayRun mode cfg parseIP envUser st pkts).1.length = pkts.length ∧
+    (ev = .notRead ∨ ∃ pkt, pkts[i]? = some pkt ∧ ev = .did (relayDatagram cfg parseIP envUser pkt)) :=
+  ⟨relayRun_length mode cfg parseIP envUser pkts st, relayRun_get mode cfg parseIP envUser pkts st i ev h⟩
+
+/-- **A refused destination stays refused.**  In a whole association, from any state, in both relay modes:
+    whenever the i-th datagram is sent on, it goes to the destination in ITS OWN header, and that
+    destination neither denotes the local machine (unless the user may reach loopback) nor is private
+    (unless the user may reach private networks) — the 2nd, 3rd, … datagram with a header that was refused
+    before is refused again. -/
+theorem relay_refused_stays_refused (mode : RelayMode) (cfg : Config) (parseIP : Name → Option IP)
+    (envUser : Option Name) (st : RelaySt) (pkts : List (List UInt8)) (i : Nat) (t : Target)
+    (h : (relayRun mode cfg parseIP envUser st pkts).1[i]? = some (.did (.send t))) :
+    ∃ pkt dst, pkts[i]? = some pkt ∧ parseDatagram pkt = some dst ∧
+      (t = .ip dst.ip dst.port ∨ t = .name dst.fqdn dst.port) ∧
+      (DenotesLocal parseIP dst → mayLoopback cfg envUser = true) ∧
+      (DenotesPrivate parseIP dst → mayPrivate cfg envUser = true) := by
+  rcases relayRun_get mode cfg parseIP envUser pkts st i _ h with h1 | ⟨pkt, hp, h1⟩
+  · cases h1
+  · have hs : relayDatagram cfg parseIP envUser pkt = .send t := by
+      simp only [RelayEv.did.injEq] at h1; exact h1.symm
+    obtain ⟨dst, hd, ht, hl, hpv⟩ := udp_datagram_refused_full cfg parseIP envUser pkt t hs
+    exact ⟨pkt, dst, hp, hd, ht, hl, hpv⟩
+
+/-- what the loop remembers about destinations (`addrMap` / `targetAddrs`, read by the reply direction) is
+    written only for datagrams the filter let pass: a refused destination never enters it -/
+theorem relay_remembers_only_allowed (mode : RelayMode) (cfg : Config) (parseIP : Name → Option IP)
+    (envUser : Option Name) (pkts : List (List UInt8)) (t : Target)
+    (h : t ∈ (relayRun mode cfg parseIP envUser {} pkts).2.remembered) :
+    ∃ pkt ∈ pkts, relayDatagram cfg parseIP envUser pkt = .send t := by
+  rcases relayRun_remembered mode cfg parseIP envUser pkts {} t h with h1 | h1
+  · simp at h1
+  · exact h1
+
+/-- how far the loop reads: in datagram mode every datagram is decided; in packet-over-stream mode every
+    datagram up to and including the first unparsable one, where the loop returns -/
+theorem relay_loop_extent (cfg : Config) (parseIP : Name → Option IP) (envUser : Option Name) :
+    (∀ pkts, (relayRun .datagram cfg parseIP envUser {} pkts).1 = pkts.map fun p => .did (relayDatagram cfg parseIP envUser p)) ∧
+    (∀ pre, (∀ p ∈ pre, relayDatagram cfg parseIP envUser p ≠ .invalid) →
+      (relayRun .stream cfg parseIP envUser {} pre).1 = pre.map fun p => .did (relayDatagram cfg parseIP envUser p)) ∧
+    (∀ pre bad post, (∀ p ∈ pre, relayDatagram cfg parseIP envUser p ≠ .invalid) →
+      relayDatagram cfg parseIP envUser bad = .invalid →
+      (relayRun .stream cfg parseIP envUser {} (pre ++ bad :: post)).1 =
+        (pre.map fun p => .did (relayDatagram cfg parseIP envUser p)) ++ .did .invalid :: post.map fun _ => .notRead) :=
+  ⟨fun pkts => relayRun_datagram cfg parseIP envUser pkts {} rfl,
+   fun pre hpre => (relayRun_stream cfg parseIP envUser pre {} rfl hpre).1,
+   fun pre bad post hpre hb => (relayRun_stream cfg parseIP envUser pre {} rfl hpre).2 bad post hb⟩
+
+/-- **What is finally dialled.**  A DIRECT CONNECT reaches `DialContext` only with: the request's own
+    literal address; `":port"` for the empty host; or — for a domain-typed destination — the address the
+    server's resolver returned for that name (`handleRequest` stores it in `dst.IP`, `AddrSpec.String`
+    prefers it).  In every case the request passed step 1 (`rejectPrivateAndLoopback ≠ REJECT`), which
+    looked at the request's TEXT: the resolver's answer is not classified again. -/
+theorem dialled_is_checked_or_resolved (cfg : Config) (parseIP resolve : Name → Option IP) (envUser : Option Name)
+    (data : List UInt8) (d : Dialled) (h : serveRequestR cfg parseIP resolve envUser data = .dial d) :
+    ∃ req, parseRequest data = .ok req ∧ req.cmd = connectCmd ∧
+      rejectPrivateAndLoopback cfg parseIP envUser req ≠ .reject ∧
+      ((req.dst.fqdn = [] ∧ req.dst.ip ≠ [] ∧ d = .addr req.dst.ip req.dst.port) ∨
+       (req.dst.fqdn = [] ∧ req.dst.ip = [] ∧ d = .localPort req.dst.port) ∨
+       (req.dst.fqdn ≠ [] ∧ ∃ ip, resolve req.dst.fqdn = some ip ∧ d = .addr ip req.dst.port)) := by
+  unfold serveRequestR at h
+  cases hp : parseRequest data with
+  | error e =>
+    simp only [hp] at h
+    split at h <;> cases h
+  | ok req =>
+    simp only [hp] at h
+    cases hs : serveRequest cfg parseIP envUser data with
+    | noReply => simp [hs] at h
+    | forward cs => simp [hs] at h
+    | reply c => simp only [hs] at h; split at h <;> (try split at h) <;> cases h
+    | associate => simp only [hs] at h; split at h <;> cases h
+    | connect t =>
+      simp only [hs] at h
+      -- unfold what `serveRequest` did to get here
+      obtain ⟨htake, hlen4⟩ := parseRequest_take hp
+      have hlen' : ¬ (data.take req.rawLen).length < 4 := by omega
+      unfold serveRequest at hs
+      simp only [hp] at hs
+      unfold findAction at hs
+      simp only [hlen', htake, Bool.not_true, Bool.false_eq_true, if_false] at hs
+      by_cases hc : req.cmd = connectCmd ∨ req.cmd = udpAssociateCmd
+      · simp only [hc, if_true] at hs
+        by_cases hr : rejectPrivateAndLoopback cfg parseIP envUser req = .reject
+        · simp [hr] at hs
+        · simp only [hr, if_false] at hs
+          cases hfa : (forwardToProxy cfg req).action with
+          | reject => simp [hfa] at hs
+          | proxy => simp [hfa] at hs
+          | direct =>
+            simp only [hfa] at hs
+            by_cases hcc : req.cmd = connectCmd
+            · simp only [hcc, if_true, Served.connect.injEq] at hs
+              refine ⟨req, rfl, hcc, hr, ?_⟩
+              subst hs
+              by_cases hun : (!req.dst.fqdn.isEmpty && (resolve req.dst.fqdn).isNone) = true
+              · simp [hun] at h
+              · simp only [hun, Bool.false_eq_true, if_false, ServedR.dial.injEq] at h
+                subst h
+                unfold dialTarget
+                cases hf : req.dst.fqdn with
+                | nil =>
+                  cases hi : req.dst.ip with
+                  | nil => exact Or.inr (Or.inl ⟨rfl, rfl, by simp [dialled]⟩)
+                  | cons a b => exact Or.inl ⟨rfl, by simp, by simp [dialled]⟩
+                | cons a b =>
+                  right; right
+                  refine ⟨by simp, ?_⟩
+                  rw [hf] at hun
+                  cases hres : resolve (a :: b) with
+                  | none => simp [hres] at hun
+                  | some ip => exact ⟨ip, rfl, by simp [dialled, hres]⟩
+            · simp only [hcc, if_false] at hs
+              by_cases hu : req.cmd = udpAssociateCmd <;> simp [hu] at hs
+      · have h1 : ¬ req.cmd = connectCmd := fun e => hc (Or.inl e)
+        have h2 : ¬ req.cmd = udpAssociateCmd := fun e => hc (Or.inr e)
+        simp [hc, h1, h2] at hs
+
+/-- the resolver is "honest" for this user's purposes: for a name that is an IP literal (zone ignored) it
+    returns an address of the same classes as the literal; for every other name except the well-known
+    local ones it returns a public address.  THIS IS AN ASSUMPTION ABOUT THE NETWORK'S NAME SERVICE, not a
+    fact about the code: see `resolved_name_reaches_loopback_witness`. -/
+def ResolverHonest (parseIP resolve : Name → Option IP) : Prop :=
+  (∀ n lit ip, parseIPLiteral parseIP n = some lit → resolve n = some ip →
+    isLoopback ip = isLoopback lit ∧ isUnspecified ip = isUnspecified lit ∧ isPrivate ip = isPrivate lit) ∧
+  (∀ n ip, n ≠ [] → isWellKnownV4 n = false → isWellKnownV6 n = false → parseIPLiteral parseIP n = none →
+    resolve n = some ip → isLoopback ip = false ∧ isUnspecified ip = false ∧ isPrivate ip = false)
+
+/-- **End to end, CONNECT**, for a user with neither flag: under `ResolverHonest`, whatever reaches
+    `DialContext` is a public address — never loopback, never unspecified, never private, never `":port"`.
+    Composes `dialled_is_checked_or_resolved` with the step-1 theorems. -/
+theorem nothing_local_dialled (cfg : Config) (parseIP resolve : Name → Option IP) (envUser : Option Name)
+    (data : List UInt8) (d : Dialled) (hres : ResolverHonest parseIP resolve)
+    (hl : mayLoopback cfg envUser = false) (hpv : mayPrivate cfg envUser = false)
+    (h : serveRequestR cfg parseIP resolve envUser data = .dial d) :
+    ∃ ip port, d = .addr ip port ∧ isLoopback ip = false ∧ isUnspecified ip = false ∧ isPrivate ip = false := by
+  obtain ⟨req, hp, hc, hr, hcase⟩ := dialled_is_checked_or_resolved cfg parseIP resolve envUser data d h
+  have hcc : (req.cmd == connectCmd) = true := by rw [hc]; rfl
+  rcases hcase with ⟨hf, hi, hd⟩ | ⟨hf, hi, hd⟩ | ⟨hf, ip, hrs, hd⟩
+  · have hck : checkedIP parseIP req = some req.dst.ip := by simp [checkedIP, isEmpty_false_of_ne hi]
+    obtain ⟨h1, h2⟩ := checked_public_of_not_rejected hck hr hl hpv
+    simp only [hcc, Bool.and_true, Bool.or_eq_false_iff] at h2
+    exact ⟨_, _, hd, h2.1, h2.2, h1⟩
+  · exfalso
+    have hck : checkedIP parseIP req = some parsedLoopback4 := by simp [checkedIP, hi, hf, hc]
+    obtain ⟨_, h2⟩ := checked_public_of_not_rejected hck hr hl hpv
+    simp [parsedLoopback4_loop.1] at h2
+  · have hfe := isEmpty_false_of_ne hf
+    by_cases h4 : isWellKnownV4 req.dst.fqdn = true
+    · exfalso
+      by_cases hi : req.dst.ip = []
+      · have hck : checkedIP parseIP req = some parsedLoopback4 := by simp [checkedIP, hi, hfe, h4]
+        obtain ⟨_, h2⟩ := checked_public_of_not_rejected hck hr hl hpv
+        simp [parsedLoopback4_loop.1] at h2
+      · exact absurd (by
+          have := (parseRequest_fqdn_ip hp); exact this hf) hi
+    · by_cases h6 : isWellKnownV6 req.dst.fqdn = true
+      · exfalso
+        have hi : req.dst.ip = [] := parseRequest_fqdn_ip hp hf
+        have hck : checkedIP parseIP req = some parsedLoopback6 := by simp [checkedIP, hi, hfe, h4, h6]
+        obtain ⟨_, h2⟩ := checked_public_of_not_rejected hck hr hl hpv
+        simp [parsedLoopback6_loop.1] at h2
+      · have hi : req.dst.ip = [] := parseRequest_fqdn_ip hp hf
+        have h4' : isWellKnownV4 req.dst.fqdn = false := by simpa using h4
+        have h6' : isWellKnownV6 req.dst.fqdn = false := by simpa using h6
+        cases hlit : parseIPLiteral parseIP req.dst.fqdn with
+        | none =>
+          obtain ⟨a, b, c⟩ := hres.2 req.dst.fqdn ip hf h4' h6' hlit hrs
+          exact ⟨_, _, hd, a, b, c⟩
+        | some lit =>
+          have hck : checkedIP parseIP req = some lit := by simp [checkedIP, hi, hfe, h4', h6', hlit]
+          obtain ⟨h1, h2⟩ := checked_public_of_not_rejected hck hr hl hpv
+          simp only [hcc, Bool.and_true, Bool.or_eq_false_iff] at h2
+          obtain ⟨a, b, c⟩ := hres.1 req.dst.fqdn lit ip hlit hrs
+          exact ⟨_, _, hd, by rw [a, h2.1], by rw [b, h2.2], by rw [c, h1]⟩
+
+/-- **Scope boundary, stated as a theorem so that nobody reads more into the refusal theorems than they say.**
+    The code classifies the TEXT of the destination; a name that is neither well-known nor a literal is
+    DIRECT at step 1 ("for user privacy, we only check some well-known local domain names"), and the address
+    the resolver then returns is dialled without being classified.  Witness: user `u0` (no flags), CONNECT
+    `rebind.test:80`, a name service that answers 127.0.0.1 — `DialContext` gets 127.0.0.1:80; the same for a
+    relayed datagram.  properties.jsonl C12 lists literal addresses, the empty / unspecified host and the
+    well-known names, not names that merely resolve to a local address, so this is recorded as the limit of
+    the property (and of `ResolverHonest`'s necessity), not as a violation. -/
+theorem resolved_name_reaches_loopback_witness :
+    let cfg : Config := ⟨[⟨[117, 48], false, false⟩], [], [], false⟩
+    let rebind : Name := [114, 101, 98, 105, 110, 100, 46, 116, 101, 115, 116]   -- "rebind.test"
+    let resolve : Name → Option IP := fun _ => some [127, 0, 0, 1]
+    mayLoopback cfg (some [117, 48]) = false ∧
+    serveRequestR cfg (fun _ => none) resolve (some [117, 48]) ([5, 1, 0, 3, 11] ++ rebind ++ [0, 80])
+      = .dial (.addr [127, 0, 0, 1] 80) ∧
+    relayDialled cfg (fun _ => none) resolve (some [117, 48]) ([0, 0, 0, 3, 11] ++ rebind ++ [0, 53, 1, 2])
+      = some (.addr [127, 0, 0, 1] 53) := by decide
+
+/-- a relayed datagram, end to end: under `ResolverHonest` nothing local is written to, for a user with neither flag -/
+theorem nothing_local_relayed (cfg : Config) (parseIP resolve : Name → Option IP) (envUser : Option Name)
+    (pkt : List UInt8) (ip : IP) (port : Nat) (hres : ResolverHonest parseIP resolve)
+    (hl : mayLoopback cfg envUser = false) (hpv : mayPrivate cfg envUser = false)
+    (h : relayDialled cfg parseIP resolve envUser pkt = some (.addr ip port)) :
+    isLoopback ip = false ∧ isUnspecified ip = false ∧ isPrivate ip = false := by
+  unfold relayDialled at h
+  cases hr : relayDatagram cfg parseIP envUser pkt with
+  | invalid => simp [hr] at h
+  | dropped => simp [hr] at h
+  | unresolvable => simp [hr] at h
+  | send t =>
+    simp only [hr, Option.some.injEq] at h
+    unfold relayDatagram at hr
+    cases hpd : parseDatagram pkt with
+    | none => simp [hpd] at hr
+    | some dst =>
+      simp only [hpd] at hr
+      by_cases hrej : rejectPrivateAndLoopback cfg parseIP envUser ⟨connectCmd, dst, 0⟩ = .reject
+      · simp [hrej] at hr
+      · simp only [hrej, if_false] at hr
+        have hcc : ((⟨connectCmd, dst, 0⟩ : Request).cmd == connectCmd) = true := rfl
+        by_cases hlen : dst.ip.length = 4 ∨ dst.ip.length = 16
+        · simp only [hlen, if_true, Relay.send.injEq] at hr
+          subst hr
+          simp only [dialled, Dialled.addr.injEq] at h
+          have hne : dst.ip ≠ [] := by
+            intro e; rw [e] at hlen; simp at hlen
+          have hck : checkedIP parseIP ⟨connectCmd, dst, 0⟩ = some dst.ip := by simp [checkedIP, isEmpty_false_of_ne hne]
+          obtain ⟨h1, h2⟩ := checked_public_of_not_rejected hck hrej hl hpv
+          simp only [hcc, Bool.and_true, Bool.or_eq_false_iff] at h2
+          rw [← h.1]
+          exact ⟨h2.1, h2.2, h1⟩
+        · simp only [hlen, if_false] at hr
+          by_cases hfe : dst.fqdn.isEmpty = true
+          · simp [hfe] at hr
+          · simp only [hfe, Bool.not_false, if_true, Relay.send.injEq] at hr
+            subst hr
+            have hf : dst.fqdn ≠ [] := by
+              intro e; rw [e] at hfe; simp at hfe
+            have hfe' : dst.fqdn.isEmpty = false := by simpa using hfe
+            cases hrs : resolve dst.fqdn with
+            | none => simp [dialled, hrs] at h
+            | some rip =>
+              simp only [dialled, hrs, Dialled.addr.injEq] at h
+              obtain ⟨hip, _⟩ := h
+              subst hip
+              have hi : dst.ip = [] := parseDatagram_fqdn_ip hpd hf
+              by_cases h4 : isWellKnownV4 dst.fqdn = true
+              · exfalso
+                have hck : checkedIP parseIP ⟨connectCmd, dst, 0⟩ = some parsedLoopback4 := by simp [checkedIP, hi, hfe', h4]
+                obtain ⟨_, h2⟩ := checked_public_of_not_rejected hck hrej hl hpv
+                simp [parsedLoopback4_loop.1] at h2
+              · by_cases h6 : isWellKnownV6 dst.fqdn = true
+                · exfalso
+                  have hck : checkedIP parseIP ⟨connectCmd, dst, 0⟩ = some parsedLoopback6 := by simp [checkedIP, hi, hfe', h4, h6]
+                  obtain ⟨_, h2⟩ := checked_public_of_not_rejected hck hrej hl hpv
+                  simp [parsedLoopback6_loop.1] at h2
+                · have h4' : isWellKnownV4 dst.fqdn = false := by simpa using h4
+                  have h6' : isWellKnownV6 dst.fqdn = false := by simpa using h6
+                  cases hlit : parseIPLiteral parseIP dst.fqdn with
+                  | none => exact hres.2 dst.fqdn rip hf h4' h6' hlit hrs
+                  | some lit =>
+                    have hck : checkedIP parseIP ⟨connectCmd, dst, 0⟩ = some lit := by simp [checkedIP, hi, hfe', h4', h6', hlit]
+                    obtain ⟨h1, h2⟩ := checked_public_of_not_rejected hck hrej hl hpv
+                    simp only [hcc, Bool.and_true, Bool.or_eq_false_iff] at h2
+                    obtain ⟨a, b, c⟩ := hres.1 dst.fqdn lit rip hlit hrs
+                    exact ⟨by rw [a, h2.1], by rw [b, h2.2], by rw [c, h1]⟩
+
+/-! ### "respectively": each flag on its own -/
+
+/-- a user with ONLY the loopback flag reaches loopback-class destinations and is still refused private
+    ones; a user with ONLY the private flag reaches private destinations and is still refused loopback ones -/
+theorem flags_are_independent (cfg : Config) (parseIP : Name → Option IP) (envUser : Option Name) (req : Request)
+    (ip : IP) (hck : checkedIP parseIP req = some ip) :
+    (mayLoopback cfg envUser = true → isPrivate ip = false → rejectPrivateAndLoopback cfg parseIP envUser req = .direct) ∧
+    (mayPrivate cfg envUser = true → isPrivate ip = true → rejectPrivateAndLoopback cfg parseIP envUser req = .direct) ∧
+    (mayPrivate cfg envUser = false → isPrivate ip = true → rejectPrivateAndLoopback cfg parseIP envUser req = .reject) ∧
+    (mayLoopback cfg envUser = false → (isLoopback ip || (isUnspecified ip && req.cmd == connectCmd)) = true →
+      rejectPrivateAndLoopback cfg parseIP envUser req = .reject) := by
+  refine ⟨fun hl hnp => ?_, fun hp hpr => ?_, fun hp hpr => reject_of_checked_private hck hpr hp,
+          fun hl hlo => reject_of_checked hck hlo hl⟩
+  · unfold rejectPrivateAndLoopback
+    simp only [hck, hnp]
+    by_cases hlo : (isLoopback ip || (isUnspecified ip && req.cmd == connectCmd)) = true
+    · simp only [hlo]
+      unfold mayLoopback at hl
+      cases hald : cfg.allowLoopbackDestination with
+      | true => simp
+      | false =>
+        simp only [hald, Bool.false_or] at hl
+        cases envUser with
+        | none => simp at hl
+        | some n =>
+          simp only [Bool.and_eq_true, Bool.not_eq_true'] at hl
+          obtain ⟨hn, hu⟩ := hl
+          cases hlk : lookupUser cfg.users n with
+          | none => simp [hlk] at hu
+          | some u =>
+            simp only [hlk] at hu
+            simp [hn, hlk, hu]
+    · have : (isLoopback ip || (isUnspecified ip && req.cmd == connectCmd)) = false := by simpa using hlo
+      simp [this]
+  · have hnl : isLoopback ip = false := by
+      cases h : isLoopback ip with
+      | false => rfl
+      | true => rw [loopback_not_private ip h] at hpr; cases hpr
+    have hnu : isUnspecified ip = false := by
+      cases h : isUnspecified ip with
+      | false => rfl
+      | true => rw [unspecified_not_private ip h] at hpr; cases hpr
+    unfold rejectPrivateAndLoopback
+    simp only [hck, hpr, hnl, hnu]
+    unfold mayPrivate at hp
+    cases envUser with
+    | none => simp at hp
+    | some n =>
+      simp only [Bool.and_eq_true, Bool.not_eq_true'] at hp
+      obtain ⟨hn, hu⟩ := hp
+      cases hlk : lookupUser cfg.users n with
+      | none => simp [hlk] at hu
+      | some u =>
+        simp only [hlk] at hu
+        simp [hn, hlk, hu]
+
+/-! ### ties (T): regenerated from the working tree (`Mieru.Gen.C12`, tools/goextract/c12facts.go) -/
+
+/-- the model's tables of well-known local names ARE the tables in pkg/socks5/egress.go, name by name, in order -/
+theorem wellknown_tables_expected :
+    Gen.C12.wellKnownV4 = wellKnownV4 ∧ Gen.C12.wellKnownV6 = wellKnownV6 := by decide
+
+/-- `idx a l < idx b l` and `b` occurs: `a` comes before `b` in the list -/
+def before (a b : String) (l : List String) : Bool := decide (l.idxOf a < l.idxOf b) && decide (l.idxOf b < l.length)
+
+/-- the ORDER of checks in `FindAction`: protocol → `len < 4` → version → parse → command ∈ {CONNECT,
+    UDP ASSOCIATE} → step 1 (a REJECT is final) → step 2; everything else DIRECT — `findAction` line by line -/
+theorem findaction_order_expected :
+    Gen.C12.findActionSkeleton =
+      ["if in.Protocol != appctlpb.ProxyProtocol_SOCKS5_PROXY_PROTOCOL {",
+       "  return egress.Action{ Action: appctlpb.EgressAction_DIRECT, }",
+       "}",
+       "if len(in.Data) < 4 {",
+       "  return egress.Action{ Action: appctlpb.EgressAction_DIRECT, }",
+       "}",
+       "if in.Data[0] != constant.Socks5Version {",
+       "  return egress.Action{ Action: appctlpb.EgressAction_DIRECT, }",
+       "}",
+       "req, err := parseEgressSocks5Request(in.Data)",
+       "if err != nil {",
+       "  return egress.Action{ Action: appctlpb.EgressAction_DIRECT, }",
+       "}",
+       "if req.Command == constant.Socks5ConnectCmd || req.Command == constant.Socks5UDPAssociateCmd {",
+       "  action := s.rejectPrivateAndLoopbackIPAction(ctx, in, req)",
+       "  if action.Action == appctlpb.EgressAction_REJECT {",
+       "    return action",
+       "  }",
+       "  return s.forwardToProxyAction(ctx, req)",
+       "}",
+       "return egress.Action{ Action: appctlpb.EgressAction_DIRECT, }"] := by decide
+
+/-- the order of checks in `rejectPrivateAndLoopbackIPAction` (= `checkedIP` then `rejectPrivateAndLoopback`):
+    names (EqualFold against the two tables, IPv4 table first) → literal with the zone cut → ordinary name:
+    DIRECT → empty host only for CONNECT → unspecified counts as loopback only for CONNECT → neither private
+    nor loopback: DIRECT → server-wide switch → user lookup (absent / empty / unknown: REJECT) → the private
+    flag BEFORE the loopback flag; and `parseIPLiteral` cuts at the first '%' -/
+theorem reject_order_expected :
+    Gen.C12.rejectSkeleton =
+      ["ip := req.DstAddr.IP",
+       "if len(ip) == 0 && req.DstAddr.FQDN != \"\" {",
+       "  domainName := req.DstAddr.FQDN",
+       "  isWellKnownIPv4LocalDomainName := false",
+       "  isWellKnownIPv6LocalDomainName := false",
+       "  for _, d := range wellKnownIPv4LocalDomainNames {",
+       "    if strings.EqualFold(domainName, d) {",
+       "      isWellKnownIPv4LocalDomainName = true",
+       "      break",
+       "    }",
+       "  }",
+       "  for _, d := range wellKnownIPv6LocalDomainNames {",
+       "    if strings.EqualFold(domainName, d) {",
+       "      isWellKnownIPv6LocalDomainName = true",
+       "      break",
+       "    }",
+       "  }",
+       "  if isWellKnownIPv4LocalDomainName {",
+       "    ip = net.ParseIP(\"127.0.0.1\")",
+       "  } else if isWellKnownIPv6LocalDomainName {",
+       "    ip = net.ParseIP(\"::1\")",
+       "  } else if literal := parseIPLiteral(domainName); literal != nil {",
+       "    ip = literal",
+       "  } else {",
+       "    return egress.Action{ Action: appctlpb.EgressAction_DIRECT, }",
+       "  }",
+       "} else if len(ip) == 0 {",
+       "  if req.Command != constant.Socks5ConnectCmd {",
+       "    return egress.Action{ Action: appctlpb.EgressAction_DIRECT, }",
+       "  }",
+       "  ip = net.ParseIP(\"127.0.0.1\")",
+       "}",
+       "isLoopback := ip.IsLoopback() || (ip.IsUnspecified() && req.Command == constant.Socks5ConnectCmd)",
+       "if !ip.IsPrivate() && !isLoopback {",
+       "  return egress.Action{ Action: appctlpb.EgressAction_DIRECT, }",
+       "}",
+       "if isLoopback && s.config.AllowLoopbackDestination {",
+       "  return egress.Action{ Action: appctlpb.EgressAction_DIRECT, }",
+       "}",
+       "userName, ok := in.Env[\"user\"]",
+       "if !ok || userName == \"\" {",
+       "  return egress.Action{ Action: appctlpb.EgressAction_REJECT, }",
+       "}",
+       "user, ok := s.config.Users[userName]",
+       "if !ok {",
+       "  return egress.Action{ Action: appctlpb.EgressAction_REJECT, }",
+       "}",
+       "if ip.IsPrivate() && user.GetAllowPrivateIP() {",
+       "  return egress.Action{ Action: appctlpb.EgressAction_DIRECT, }",
+       "} else if isLoopback && user.GetAllowLoopbackIP() {",
+       "  return egress.Action{ Action: appctlpb.EgressAction_DIRECT, }",
+       "}",
+       "return egress.Action{ Action: appctlpb.EgressAction_REJECT, }"] ∧
+    Gen.C12.parseIPLiteralSkeleton =
+      ["if i := strings.IndexByte(s, '%'); i >= 0 {", "  s = s[:i]", "}", "return net.ParseIP(s)"] := by
+  refine ⟨by decide, by decide⟩
+
+/-- first match wins, as written: `forwardToProxyAction` returns inside the first rule `matchEgressRule`
+    accepts; `matchEgressRule` applies IP ranges to IP-typed and domain patterns to domain-typed destinations -/
+theorem rules_order_expected :
+    Gen.C12.forwardSkeleton.take 7 =
+      ["addr := req.DstAddr.IP", "domain := req.DstAddr.FQDN", "if len(addr) == 0 && domain == \"\" {",
+       "  return egress.Action{Action: appctlpb.EgressAction_DIRECT}", "}",
+       "for _, rule := range s.config.Egress.GetRules() {", "  if s.matchEgressRule(addr, domain, rule) {"] ∧
+    Gen.C12.forwardSkeleton.drop 20 =
+      ["    return egress.Action{Action: rule.GetAction()}", "  }", "}",
+       "return egress.Action{Action: appctlpb.EgressAction_DIRECT}"] ∧
+    Gen.C12.matchRuleSkeleton =
+      ["if addr != nil {",
+       "  for _, ipRange := range rule.GetIpRanges() {",
+       "    if ipRange == \"*\" {", "      return true", "    }",
+       "    _, cidr, err := net.ParseCIDR(ipRange)",
+       "    if err != nil {", "      continue", "    }",
+       "    if cidr.Contains(addr) {", "      return true", "    }",
+       "  }",
+       "} else if domain != \"\" {",
+       "  for _, d := range rule.GetDomainNames() {",
+       "    if d == \"*\" {", "      return true", "    }",
+       "    if domain == d || strings.HasSuffix(domain, \".\"+d) {", "      return true", "    }",
+       "  }",
+       "}",
+       "return false"] := by
+  refine ⟨by decide, by decide, by decide⟩
+
+/-- **The filter is asked first, for every datagram, in both relay loops** — the structural half of
+    `relay_each_datagram_decided_alone`: before `allow(datagram.Addr)` the loop only reads and parses (no
+    cache, no map is consulted); resolution, the remembered-destination store and the write come after it;
+    the call sits under no condition of its own (datagram mode: only under "this datagram comes from the
+    client"); the server passes `s.udpDestinationFilter(ctx, proxyConn)` to both loops (only the exported
+    unfiltered `RunUDPAssociateLoop` passes nil); and the filter judges the header's destination as a
+    CONNECT destination (`Command: constant.Socks5ConnectCmd`), through `rejectPrivateAndLoopbackIPAction`. -/
+theorem relay_filter_first_expected :
+    (Gen.C12.streamLoopEvents.filter (· ≠ "udpErr.Store")).takeWhile (· ≠ "allow") = ["conn.Read", "parseSocks5UDPDatagram"] ∧
+    (Gen.C12.streamLoopEvents.filter (· ≠ "udpErr.Store")).dropWhile (· ≠ "allow") =
+      ["allow", "resolveSocks5UDPAddr", "addrMap.Store", "dstAddr.String", "udpConn.WriteToUDP"] ∧
+    Gen.C12.streamAllowGuards = [] ∧
+    Gen.C12.datagramLoopEvents.takeWhile (· ≠ "allow") =
+      ["udpConn.ReadFromUDP", "stderror.IsEOF", "stderror.IsClosed", "sameUDPAddr", "parseSocks5UDPDatagram"] ∧
+    before "allow" "resolveSocks5UDPAddr" Gen.C12.datagramLoopEvents = true ∧
+    before "allow" "udpConn.WriteToUDP" Gen.C12.datagramLoopEvents = true ∧
+    before "allow" "index:targetAddrs" Gen.C12.datagramLoopEvents = true ∧
+    (Gen.C12.datagramLoopEvents.filter (· == "allow")).length = 1 ∧
+    Gen.C12.datagramAllowGuards = ["clientAddr == nil || sameUDPAddr(addr, clientAddr)"] ∧
+    Gen.C12.relayLoopCallSites =
+      [("Server.handleAssociatePacketOverStream -> runUDPAssociateLoop", "s.udpDestinationFilter(ctx, proxyConn)"),
+       ("Server.handleAssociateDatagram -> runUDPAssociateDatagramLoop", "s.udpDestinationFilter(ctx, proxyConn)"),
+       ("RunUDPAssociateLoop -> runUDPAssociateLoop", "nil")] ∧
+    Gen.C12.udpFilterSkeleton.drop 4 =
+      ["return func {",
+       "  req := &model.Request{Command: constant.Socks5ConnectCmd, DstAddr: dst}",
+       "  return s.rejectPrivateAndLoopbackIPAction(ctx, in, req).Action != appctlpb.EgressAction_REJECT",
+       "}"] := by
+  refine ⟨by decide, by decide, by decide, by decide, by decide, by decide, by decide, by decide, by decide, by decide, by decide⟩
+
+/-- resolution comes before the dispatch on the command, the dial uses `AddrSpec.String()` which prefers the
+    (resolved) IP, and the UDP relay resolves a name only when the header carries no address — `dialled` /
+    `serveRequestR` as written -/
+theorem dial_after_resolution_expected :
+    before "s.config.Resolver.LookupIP" "common.SelectIPFromList" Gen.C12.handleRequestEvents = true ∧
+    before "common.SelectIPFromList" "s.handleConnect" Gen.C12.handleRequestEvents = true ∧
+    before "common.SelectIPFromList" "s.handleBind" Gen.C12.handleRequestEvents = true ∧
+    before "common.SelectIPFromList" "s.handleAssociate" Gen.C12.handleRequestEvents = true ∧
+    Gen.C12.handleConnectDialArgs = ["ctx", "\"tcp\"", "req.DstAddr.String()"] ∧
+    Gen.C12.addrSpecStringSkeleton =
+      ["if len(a.IP) != 0 {", "  return net.JoinHostPort(a.IP.String(), strconv.Itoa(a.Port))", "}",
+       "return net.JoinHostPort(a.FQDN, strconv.Itoa(a.Port))"] ∧
+    Gen.C12.resolveUDPSkeleton =
+      ["if addr.IP.To4() != nil || addr.IP.To16() != nil {", "  return &net.UDPAddr{IP: addr.IP, Port: addr.Port}, nil", "}",
+       "if addr.FQDN != \"\" {", "  return apicommon.ResolveUDPAddr(ctx, resolver, \"udp\", addr.String())", "}",
+       "return nil, model.ErrUnrecognizedAddrType"] := by
+  refine ⟨by decide, by decide, by decide, by decide, by decide, by decide, by decide⟩
+
 /-! ### non-vacuity and regressions
 
 `u0`: a registered user without flags; `uL`, `uP`: with one flag each.  `lit` plays `net.ParseIP`. -/
@@ -279,5 +800,87 @@ example : serveRequest cfg0 noLit uL [5, 1, 0, 1, 127, 0, 0, 1, 0, 80] = .forwar
     serveRequest ⟨cfg0.users, [], [], false⟩ noLit u0 [5, 1, 0, 1, 8, 8, 8, 8, 0, 80] = .connect (.ip [8, 8, 8, 8] 80) ∧
     serveRequest ⟨cfg0.users, [], [], false⟩ noLit u0 [5, 3, 0, 1, 0, 0, 0, 0, 0, 0] = .associate ∧
     serveRequest ⟨cfg0.users, [], [], false⟩ noLit u0 [5, 3, 0, 1, 127, 0, 0, 1, 0, 0] = .reply 2 := by decide
+
+/-! ### round 3: non-vacuity and regressions -/
+
+/-- `net.ParseIP` restricted to the texts used below: "::1", "fd00::2", "127.0.0.1"; anything with a zone is
+    NOT an IP to `net.ParseIP` (that is what made the bypass) -/
+def litZ : Name → Option IP := fun n =>
+  if n = [58, 58, 49] then some ipv6loopback
+  else if n = [102, 100, 48, 48, 58, 58, 50] then some ([0xfd, 0] ++ List.replicate 13 0 ++ [2])
+  else if n = [49, 50, 55, 46, 48, 46, 48, 46, 49] then some (mapped 127 0 0 1)
+  else none
+
+/-- REGRESSION (audit GAP-1, repo fix e7d007f): CONNECT to the domain-typed texts "::1%x", "fd00::2%eth0",
+    "127.0.0.1%1" is refused for a user without flags (before the fix: DIRECT, and the resolver, which
+    drops the zone, handed back the loopback / private address); the user with the matching flag passes;
+    the hypotheses of `zoned_literal_denotes_local` are met -/
+example :
+    serveRequest cfg0 litZ u0 ([5, 1, 0, 3, 5, 58, 58, 49, 37, 120, 0, 80]) = .reply 2 ∧
+    serveRequest cfg0 litZ u0 ([5, 1, 0, 3, 12, 102, 100, 48, 48, 58, 58, 50, 37, 101, 116, 104, 48, 0, 80]) = .reply 2 ∧
+    serveRequest cfg0 litZ u0 ([5, 1, 0, 3, 11, 49, 50, 55, 46, 48, 46, 48, 46, 49, 37, 49, 0, 80]) = .reply 2 ∧
+    serveRequest ⟨cfg0.users, [], [], false⟩ litZ uL ([5, 1, 0, 3, 5, 58, 58, 49, 37, 120, 0, 80])
+      = .connect (.name [58, 58, 49, 37, 120] 80) ∧
+    relayDatagram cfg0 litZ u0 ([0, 0, 0, 3, 5, 58, 58, 49, 37, 120, 0, 53, 9]) = .dropped ∧
+    DenotesLocal litZ ⟨[], [58, 58, 49] ++ 0x25 :: [120], 80⟩ :=
+  ⟨by decide, by decide, by decide, by decide, by decide,
+   (zoned_literal_denotes_local litZ [58, 58, 49] [120] 80 ipv6loopback (by decide) (by decide)).1 (Or.inl (by decide))⟩
+
+/-- REGRESSION (seeded change C12-3, a destination cache filled before the filter): ONE association that
+    sends the refused header 127.0.0.1:53 three times, interleaved with an allowed destination: refused
+    every time, in both relay modes; the allowed ones pass every time; only they are remembered -/
+example :
+    let no := [0, 0, 0, 1, 127, 0, 0, 1, 0, 53, 1]
+    let ok := [0, 0, 0, 1, 8, 8, 8, 8, 0, 53, 2]
+    (relayRun .stream cfg0 noLit u0 {} [no, ok, no, ok, no]).1 =
+      [.did .dropped, .did (.send (.ip [8, 8, 8, 8] 53)), .did .dropped, .did (.send (.ip [8, 8, 8, 8] 53)), .did .dropped] ∧
+    (relayRun .datagram cfg0 noLit u0 {} [no, ok, no, ok, no]).1 =
+      [.did .dropped, .did (.send (.ip [8, 8, 8, 8] 53)), .did .dropped, .did (.send (.ip [8, 8, 8, 8] 53)), .did .dropped] ∧
+    (relayRun .stream cfg0 noLit u0 {} [no, ok, no, ok, no]).2.remembered = [.ip [8, 8, 8, 8] 53, .ip [8, 8, 8, 8] 53] ∧
+    -- an unparsable datagram ends the packet-over-stream loop and is skipped in datagram mode
+    (relayRun .stream cfg0 noLit u0 {} [ok, [0, 0, 1], ok]).1 = [.did (.send (.ip [8, 8, 8, 8] 53)), .did .invalid, .notRead] ∧
+    (relayRun .datagram cfg0 noLit u0 {} [ok, [0, 0, 1], ok]).1 =
+      [.did (.send (.ip [8, 8, 8, 8] 53)), .did .invalid, .did (.send (.ip [8, 8, 8, 8] 53))] := by decide
+
+/-- `ResolverHonest` is satisfiable (a name service that answers 8.8.8.8 for everything, no literals), and
+    then `nothing_local_dialled`'s hypotheses are met by a real run: CONNECT example.test:80 by `u0` is
+    dialled at 8.8.8.8:80; a failed lookup is answered 04 for CONNECT, UDP ASSOCIATE and BIND alike -/
+example : ResolverHonest noLit (fun _ => some [8, 8, 8, 8]) :=
+  ⟨fun n lit ip h _ => by simp [parseIPLiteral, noLit] at h,
+   fun n ip _ _ _ _ h => by simp only [Option.some.injEq] at h; subst h; decide⟩
+example :
+    let plain : Config := ⟨cfg0.users, [], [], false⟩
+    let name := [5, 1, 0, 3, 12, 101, 120, 97, 109, 112, 108, 101, 46, 116, 101, 115, 116, 0, 80]
+    serveRequestR plain noLit (fun _ => some [8, 8, 8, 8]) u0 name = .dial (.addr [8, 8, 8, 8] 80) ∧
+    serveRequestR plain noLit (fun _ => none) u0 name = .reply 4 ∧
+    serveRequestR plain noLit (fun _ => none) u0 ([5, 3] ++ name.drop 2) = .reply 4 ∧
+    serveRequestR plain noLit (fun _ => none) u0 ([5, 2] ++ name.drop 2) = .reply 4 ∧
+    serveRequestR plain noLit (fun _ => some [8, 8, 8, 8]) u0 ([5, 2] ++ name.drop 2) = .reply 7 ∧
+    serveRequestR plain noLit (fun _ => none) u0 [5, 1, 0, 1, 8, 8, 4, 4, 0, 80] = .dial (.addr [8, 8, 4, 4] 80) ∧
+    serveRequestR plain noLit (fun _ => none) u0 [5, 1, 0, 9, 8, 8, 4, 4, 0, 80] = .reply 8 := by decide
+
+/-- each flag on its own (`flags_are_independent`): `uL` reaches 127.0.0.1 but not 10.0.0.1, `uP` the converse -/
+example :
+    let plain : Config := ⟨cfg0.users, [], [], false⟩
+    serveRequest plain noLit uL [5, 1, 0, 1, 127, 0, 0, 1, 0, 80] = .connect (.ip [127, 0, 0, 1] 80) ∧
+    serveRequest plain noLit uL [5, 1, 0, 1, 10, 0, 0, 1, 0, 80] = .reply 2 ∧
+    serveRequest plain noLit uP [5, 1, 0, 1, 10, 0, 0, 1, 0, 80] = .connect (.ip [10, 0, 0, 1] 80) ∧
+    serveRequest plain noLit uP [5, 1, 0, 1, 127, 0, 0, 1, 0, 80] = .reply 2 := by decide
+
+/-- WHAT THE RULES DO NOT DO (audit GAP-2, the code as it is — `egress_first_match` is relative to
+    `matchEgressRule`): (a) a rule on 10.0.0.0/8 does not match the domain-typed text "10.1.2.3" (step 1 does
+    classify it: private, refused for `u0`; for `uP` it goes out DIRECT although the rule says REJECT);
+    (b) domain patterns are compared bytewise: `EXAMPLE.TEST` does not match a rule on `example.test`;
+    (c) the per-datagram filter applies step 1 only: a datagram to 10.1.2.3 from `uP` is relayed although a
+    CONNECT to it is refused by the rule -/
+example :
+    let lit10 : Name → Option IP := fun _ => some (mapped 10 1 2 3)
+    let rules : Config := ⟨cfg0.users, [⟨[.cidr [10, 0, 0, 0] [255, 0, 0, 0]], [.name [101, 120, 97, 109, 112, 108, 101, 46, 116, 101, 115, 116]], .reject, []⟩], [], false⟩
+    serveRequest rules noLit uP [5, 1, 0, 1, 10, 1, 2, 3, 0, 80] = .reply 2 ∧
+    serveRequest rules lit10 uP [5, 1, 0, 3, 8, 49, 48, 46, 49, 46, 50, 46, 51, 0, 80] = .connect (.name [49, 48, 46, 49, 46, 50, 46, 51] 80) ∧
+    serveRequest rules noLit u0 [5, 1, 0, 3, 12, 101, 120, 97, 109, 112, 108, 101, 46, 116, 101, 115, 116, 0, 80] = .reply 2 ∧
+    serveRequest rules noLit u0 [5, 1, 0, 3, 12, 69, 88, 65, 77, 80, 76, 69, 46, 84, 69, 83, 84, 0, 80]
+      = .connect (.name [69, 88, 65, 77, 80, 76, 69, 46, 84, 69, 83, 84] 80) ∧
+    relayDatagram rules noLit uP [0, 0, 0, 1, 10, 1, 2, 3, 0, 53, 1] = .send (.ip [10, 1, 2, 3] 53) := by decide
 
 end Mieru.C12
